@@ -272,7 +272,7 @@ func schemaCmd(args []string) int {
 			switch m := r.Intn(8); m {
 			case 0:
 				optMut = "malformed number"
-				opts = append(opts, scOpt{gen.Pick(r, []string{"entries_per_node", "node_cache_entries"}) + dupSuffix(opts), gen.Pick(r, []string{"abc", "1e3", "", "12x", "5000000000", "1.5"}), true})
+				opts = append(opts, scOpt{gen.Pick(r, []string{"entries_per_node", "node_cache_entries"}) + dupSuffix(opts), gen.Pick(r, []string{"abc", "1e3", "", "12x", "5000000000", "1.5", "4=5", "16=", "1=x"}), true})
 			case 1:
 				optMut = "negative"
 				opts = append(opts, scOpt{gen.Pick(r, []string{"entries_per_node", "node_cache_entries"}) + dupSuffix(opts), gen.Pick(r, []string{"-3", "-1"}), true})
@@ -317,9 +317,9 @@ func schemaCmd(args []string) int {
 			}
 		}
 		// the prefix in several spellings; whatever is written (quotes removed) is the prefix used (F49)
-		pfxWant := gen.Pick(r, []string{"p", "p", "p", "007", "1e3", "2024.10", "0x10", "-5", "a b", "it''s"})
+		pfxWant := gen.Pick(r, []string{"p", "p", "p", "007", "1e3", "2024.10", "0x10", "-5", "a b", "it''s", "day=1", "a=b=c", "x="})
 		pfxArg := "'" + pfxWant + "'"
-		if !strings.ContainsAny(pfxWant, " '") && r.Bool() {
+		if !strings.ContainsAny(pfxWant, " '=") && r.Bool() {
 			pfxArg = pfxWant
 		}
 		pfxWant = strings.ReplaceAll(pfxWant, "''", "'")
